@@ -1,6 +1,7 @@
 //! C17 — sparse-matrix editing behaves like a set of (row, column) positions.
 //! Model-based: a BTreeSet is stepped in lock-step with the real SparseMatrix.
 
+use crate::common::Hinted;
 use crate::engine::*;
 use crate::ensure;
 use ldpc_toolbox::sparse::SparseMatrix;
@@ -252,7 +253,14 @@ pub fn check(case: &Case, p: &mut Probe) -> Check {
             Op::SetRow { a, list } => {
                 let r = ri(*a);
                 let l: Vec<usize> = list.iter().map(|&x| ci(x)).collect();
-                h.set_row(r, l.iter());
+                // the list arrives as an iterator over references or over values, with one of four truthful size hints
+                let kind = (*a as usize + l.len()) as u8;
+                if kind & 4 == 0 {
+                    h.set_row(r, Hinted { inner: l.iter(), kind });
+                } else {
+                    h.set_row(r, Hinted { inner: l.iter().copied(), kind });
+                }
+                p.class_if(kind % 4 != 0, "bulk-operation-with-loose-size-hint");
                 model.retain(|e| e.0 != r);
                 for &c in &l {
                     model.insert((r, c));
@@ -261,7 +269,14 @@ pub fn check(case: &Case, p: &mut Probe) -> Check {
             Op::SetCol { a, list } => {
                 let c = ci(*a);
                 let l: Vec<usize> = list.iter().map(|&x| ri(x)).collect();
-                h.set_col(c, l.iter());
+                // the list arrives as an iterator over references or over values, with one of four truthful size hints
+                let kind = (*a as usize + l.len()) as u8;
+                if kind & 4 == 0 {
+                    h.set_col(c, Hinted { inner: l.iter(), kind });
+                } else {
+                    h.set_col(c, Hinted { inner: l.iter().copied(), kind });
+                }
+                p.class_if(kind % 4 != 0, "bulk-operation-with-loose-size-hint");
                 model.retain(|e| e.1 != c);
                 for &r in &l {
                     model.insert((r, c));
@@ -270,7 +285,14 @@ pub fn check(case: &Case, p: &mut Probe) -> Check {
             Op::InsertRow { a, list } => {
                 let r = ri(*a);
                 let l: Vec<usize> = list.iter().map(|&x| ci(x)).collect();
-                h.insert_row(r, l.iter());
+                // the list arrives as an iterator over references or over values, with one of four truthful size hints
+                let kind = (*a as usize + l.len()) as u8;
+                if kind & 4 == 0 {
+                    h.insert_row(r, Hinted { inner: l.iter(), kind });
+                } else {
+                    h.insert_row(r, Hinted { inner: l.iter().copied(), kind });
+                }
+                p.class_if(kind % 4 != 0, "bulk-operation-with-loose-size-hint");
                 for &c in &l {
                     model.insert((r, c));
                 }
@@ -278,7 +300,14 @@ pub fn check(case: &Case, p: &mut Probe) -> Check {
             Op::InsertCol { a, list } => {
                 let c = ci(*a);
                 let l: Vec<usize> = list.iter().map(|&x| ri(x)).collect();
-                h.insert_col(c, l.iter());
+                // the list arrives as an iterator over references or over values, with one of four truthful size hints
+                let kind = (*a as usize + l.len()) as u8;
+                if kind & 4 == 0 {
+                    h.insert_col(c, Hinted { inner: l.iter(), kind });
+                } else {
+                    h.insert_col(c, Hinted { inner: l.iter().copied(), kind });
+                }
+                p.class_if(kind % 4 != 0, "bulk-operation-with-loose-size-hint");
                 for &r in &l {
                     model.insert((r, c));
                 }
@@ -357,7 +386,7 @@ pub fn property() -> Property {
             }),
             Box::new(Sub {
             name: "model",
-            rule: "histories of 0..=60 (thorough 120) operations {insert, remove, toggle, clear_row/col, set_row/col, insert_row/col} on shapes 1..=8 (16) squared, one history in seven on a matrix with 130 rows (or columns) whose generated indices agree modulo 64 (0, 1, 2, 63..66, 127..129), one in 50 on a matrix of 219..=359 by at most 3 (or transposed) whose lines hold hundreds of entries before the history starts, one in 1000 on a matrix with 65 600 rows (or columns) and indices that agree modulo 2^16 (short histories; only the touched lines and the all-entries iterator are walked), half of the cell operations aimed at entries currently present; after every step every query of the real matrix is compared with a BTreeSet model; non-trivial = a deletion that removed something followed by an insertion into the same row or column; distinct by digest of the whole history",
+            rule: "histories of 0..=60 (thorough 120) operations {insert, remove, toggle, clear_row/col, set_row/col, insert_row/col; the bulk operations receive their list as an iterator over references or values whose size hint is exact, (0, None), (0, Some(usize::MAX)) or (0, Some(len))} on shapes 1..=8 (16) squared, one history in seven on a matrix with 130 rows (or columns) whose generated indices agree modulo 64 (0, 1, 2, 63..66, 127..129), one in 50 on a matrix of 219..=359 by at most 3 (or transposed) whose lines hold hundreds of entries before the history starts, one in 1000 on a matrix with 65 600 rows (or columns) and indices that agree modulo 2^16 (short histories; only the touched lines and the all-entries iterator are walked), half of the cell operations aimed at entries currently present; after every step every query of the real matrix is compared with a BTreeSet model; non-trivial = a deletion that removed something followed by an insertion into the same row or column; distinct by digest of the whole history",
             cases: |t| t.pick(300_000, 10_000_000),
             strategy,
             check,
